@@ -140,11 +140,20 @@ structure EPStorage where
   is_TokenExchangeStorage : Bool := false
   is_ClientCredentialsStorage : Bool := false
   is_DeviceAuthorizationStorage : Bool := false
+  /-- `AuthorizeClientIDSecret` of this storage only looks the client up and compares the stored secret, whatever the client's
+      registered authentication method (what example/server/storage does: a `none` / `private_key_jwt` client has the empty
+      secret there, so the EMPTY secret passes).  `false`: it also refuses clients not registered for a secret method. -/
+  secretCompareOnly : Bool := false
   g : EPGrant := {}
 
 namespace EPStorage
 def GetClientByClientID (s : EPStorage) (id : String) : Go.R OPClient := s.base.GetClientByClientID id
-def AuthorizeClientIDSecret (s : EPStorage) (id secret : String) : Go.R Unit := s.base.AuthorizeClientIDSecret id secret
+def AuthorizeClientIDSecret (s : EPStorage) (id secret : String) : Go.R Unit :=
+  if s.secretCompareOnly then
+    match s.base.clients.find? (·.id == id) with
+    | some c => if c.secret == secret then .ok () else .error "invalid secret"
+    | none => .error "client not found"
+  else s.base.AuthorizeClientIDSecret id secret
 /-- the reference store with the capability flag the existing token-endpoint functions read -/
 def store (s : EPStorage) : Store := { s.base with is_ClientCredentialsStorage := s.is_ClientCredentialsStorage }
 def ClientCredentials (s : EPStorage) (id secret : String) : Go.R OPClient := s.base.ClientCredentials id secret
